@@ -92,7 +92,7 @@ def chain_cases():
 
 def run(chk):
     chk.prove([resolve_tr.translate])
-    cases = chain_cases()
+    cases = rc.corpus_cases("C09") + chain_cases()
     cases += enum_digraphs(2, chk.rng.split("e2"), 16)
     cases += enum_digraphs(3, chk.rng.split("e3"), 512 if chk.thorough else 150)
     cases += enum_digraphs(4, chk.rng.split("e4"), 3000 if chk.thorough else 150)
